@@ -163,7 +163,7 @@ def extra_vectors(name, rng, n=6):
         # TXT data beyond 255 octets: several character-strings (DKIM keys, long SPF policies)
         def strings(*ls):
             return b''.join(bytes([n]) + bytes(rng.choice(b'abc=; v1') for _ in range(n)) for n in ls)
-        return [strings(255, 1), strings(200, 200), strings(255, 255, 90), strings(0, 255, 0, 7)]
+        return [strings(255, 1), strings(200, 200), strings(255, 255, 90), strings(0, 255, 0, 7), strings(0), strings(0, 0), strings(0, 0, 0)]
     if short == 'SignedCertificateTimestamp':
         # RFC 6962 3.2: a 64-bit count of milliseconds; far-future values, where a double no longer holds a millisecond exactly
         from harness import sweep as _sweep
